@@ -143,7 +143,7 @@ func (e *BinaryOpExpr) checkWithCompares(ctx *CheckCtx) error {
 		}
 	case *FunctionCallExpr, *FieldReferenceExpr:
 		numCallExpr++
-	case *StringExpr, *BoolExpr, *NumberExpr, *FloatExpr, *BinaryOpExpr, *FieldAccessExpr:
+	case *StringExpr, *BoolExpr, *NumberExpr, *FloatExpr, *BinaryOpExpr, *FieldAccessExpr, *NotExpr:
 	default:
 		return NewSyntaxError(e.Left.GetPos(), "%s operator with invalid left expression", op)
 	}
@@ -158,7 +158,7 @@ func (e *BinaryOpExpr) checkWithCompares(ctx *CheckCtx) error {
 		}
 	case *FunctionCallExpr, *FieldReferenceExpr:
 		numCallExpr++
-	case *StringExpr, *BoolExpr, *NumberExpr, *FloatExpr, *BinaryOpExpr, *FieldAccessExpr:
+	case *StringExpr, *BoolExpr, *NumberExpr, *FloatExpr, *BinaryOpExpr, *FieldAccessExpr, *NotExpr:
 	default:
 		return NewSyntaxError(e.Right.GetPos(), "%s operator with invalid right expression", op)
 	}
